@@ -33,14 +33,14 @@ const OPTS: OpOptions = OpOptions {
 };
 
 fn strategy_steps(_t: Tier) -> BoxedStrategy<Case> {
-    arb_fam_n(0, 12)
+    arb_fam_n(0, 13)
         .prop_flat_map(|(fam, n)| arb_history(n, fam, OPTS, 1, 2).prop_map(move |h| Case { fam, h }))
         .boxed()
 }
 
 fn strategy_hist(t: Tier) -> BoxedStrategy<Case> {
     let max_len = t.pick(40, 120);
-    arb_fam_n(0, 12)
+    arb_fam_n(0, 13)
         .prop_flat_map(move |(fam, n)| {
             // long histories on large tables are slow (pairwise value() scans): scale the length
             let len = if n >= 10 { max_len / 4 } else if n >= 8 { max_len / 2 } else { max_len };
